@@ -508,11 +508,20 @@ impl<'a> Parser<'a> {
                 return Ok(lhs);
             }
             if self.tokenizer.cur_token.is_not_token() {
+                // `x not OP y` negates `x OP y`, and OP keeps its own precedence: look at
+                // the operator after `not` before consuming anything, so that an operand
+                // of a tighter operator leaves the whole `not OP` to its caller.
+                let l_bp = match self.tokenizer.peek()? {
+                    Token::Operator(op, _) if crate::keyword::is_infix_op(op) => {
+                        InfixOpManager::new().get_precidence(op).0
+                    }
+                    _ => return Err(Error::ExpectBinOpToken),
+                };
+                if l_bp < exec_prec {
+                    return Ok(lhs);
+                }
                 is_not = true;
                 self.next()?;
-                if !self.cur_tok().is_binop_token() {
-                    return Err(Error::ExpectBinOpToken);
-                }
                 continue;
             }
             if self.tokenizer.cur_token.is_question_mark() {
